@@ -267,8 +267,8 @@ func (p *Parser) Documents() []*Document {
 
 // outputDocument returns the output objects generated by the specified
 // document.
-func (p *Parser) outputDocument(doc *Document) ([]any, error) {
-	docs, err := doc.Process(p.docs)
+func (p *Parser) outputDocument(doc *Document, all []*Document) ([]any, error) {
+	docs, err := doc.Process(all)
 	if err != nil {
 		return nil, err
 	}
@@ -311,8 +311,23 @@ func (p *Parser) outputDocument(doc *Document) ([]any, error) {
 func (p *Parser) OutputDocuments() ([]any, error) {
 	ret := []any{}
 
-	for _, doc := range p.docs {
-		outs, err := p.outputDocument(doc)
+	// Evaluation rewrites documents in place ($merge keys are deleted,
+	// $repeat replaces the document, results are assigned back), so it
+	// works on copies: the parser's merged documents stay as they are and
+	// every output call starts from the same state.
+	docs := make([]*Document, len(p.docs))
+
+	for i, doc := range p.docs {
+		doc2, err := doc.Clone("output")
+		if err != nil {
+			return nil, err
+		}
+
+		docs[i] = doc2
+	}
+
+	for _, doc := range docs {
+		outs, err := p.outputDocument(doc, docs)
 		if err != nil {
 			return nil, err
 		}
